@@ -136,6 +136,23 @@ for (dim, w, tiers) in ((2, 2, ("quick", "thorough")), (1, 4, ("quick", "thoroug
         u["backend"] = "minisat"
         UNITS.append(u)
 
+# ---------------------------------------------------------------- Grid::neighbors, unbounded in the dimension (loop contract, two ghost dimensions)
+NB_RULES = [(r"list\.reserve\([^;]*\);", ";", 0), (r"auto pos = hash_\.find\(&coord\);\s*Cell \*cell = \(pos != hash_\.end\(\)\) \? pos->second : nullptr;", "CellRef cell = HASH_FIND(coord);", 0),
+            (r"pos = hash_\.find\(&coord\);\s*cell = \(pos != hash_\.end\(\)\) \? pos->second : nullptr;", "cell = HASH_FIND(coord);", 0), (r"list\.push_back\(cell\);", "LIST_PUSH(cell);", 0)]
+NB_LOOP = """
+__CPROVER_assigns(i, __CPROVER_object_whole(coord), probed_gm, probed_gp, others_ok, probes_at_G, last_found, last_found_is_gm, last_found_is_gp, list_n, pushed_gm, pushed_gp, pushed_for_G)
+__CPROVER_loop_invariant(-1 <= i && i < dimension_ && coord[G] == C0_G && coord[H] == C0_H && others_ok)
+__CPROVER_loop_invariant(list_n >= LIST0 && list_n <= LIST0 + 2u * (unsigned)(dimension_ - 1 - i))
+__CPROVER_loop_invariant(i < G ? (probed_gm && probed_gp && probes_at_G == 2 && pushed_gm == (CELL_GM != NULLREF) && pushed_gp == (CELL_GP != NULLREF) && pushed_for_G == (CELL_GM != NULLREF ? 1u : 0u) + (CELL_GP != NULLREF ? 1u : 0u))
+                               : (!probed_gm && !probed_gp && probes_at_G == 0 && !pushed_gm && !pushed_gp && pushed_for_G == 0))
+__CPROVER_decreases(i + 1)
+"""
+UNITS.append(dict(name="c13_neighbors_unbounded", template="C13/neighbors_unb.c", functions=["ompl::Grid::neighbors(Coord&, CellArray&)"],
+                  sources=[dict(name="neighbors", file=G, sig=r"void neighbors\(Coord &coord, CellArray &list\) const", rules=NB_RULES, loops={1: NB_LOOP})],
+                  enforce=["grid_neighbors"], replace=["HASH_FIND", "LIST_PUSH"], backend="minisat", flags=["--bounds-check", "--pointer-check", "--conversion-check", "--no-signed-overflow-check", "--no-malloc-may-fail", "--object-bits", "12"],   # no signed-overflow check: cell coordinates are assumed away from INT_MIN/INT_MAX (a universal fact about all dimensions)
+                  timeout=900, level="proof", bound="dimension <= 64, unbounded in the loop; coordinates not within 1 of the int limits", expect_loops=1, confirm=dict(unwind=5, defines={}),
+                  canaries=[dict(name="restores_wrong", where="body:neighbors", rx=r"coord\[i\] \+= 2;", repl="coord[i] += 1;")]))
+
 # ---------------------------------------------------------------- KPIECE: the owners of the two-queue grid keep every changed priority re-sorted
 DISC = "src/ompl/geometric/planners/kpiece/Discretization.h"
 CKP = "src/ompl/control/planners/kpiece/src/KPIECE1.cpp"
